@@ -29,7 +29,8 @@ LEVEL_TEXT = ("Lean theorems for all layer lists, transforms and quantisation st
               "Lean `clipBounds`. Checker on real fonts: every sampled point of every compiled layer outline, under its paint transforms, lies "
               "in the ClipBox within rounding slack; edges are multiples of the step; unpainted glyphs have no box.")
 LEVEL_NOTE = ("cu2qu / ufo2ft outline compilation is observed, not proved (slack includes its 0.001 em tolerance). The near-identity shortcut of "
-              "_transformed_glyph_bounds (1e-9) is modelled. Trusted: Lean kernel, harness, fontTools as reader.")
+              "_transformed_glyph_bounds (1e-9) is modelled. Trusted: Lean kernel, harness, fontTools as reader."
+              " Tie T': `_quantize_bounding_rect` is re-translated from write_font.py on every run and proved equal to the model (`quantize_eq`, `quantize_rejects`).")
 TECHNIQUE = "Lean 4 proof (order/floor arithmetic, convex combinations) + differential correspondence of _bounds on real builds + containment check on compiled fonts"
 ASSUMPTIONS = []
 
